@@ -54,7 +54,7 @@ def trace_cfg(fam):
 
 
 def slim_nodes(nodes):
-    return [{k: n.get(k, 0 if k not in ("p", "t", "tgt") else "") for k in ("p", "t", "c", "sz", "mt", "ns", "perm", "tgt")} for n in nodes]
+    return [{k: n.get(k, 0 if k not in ("p", "t", "tgt") else "") for k in ("p", "t", "c", "sz", "mt", "ns", "perm", "tgt", "uid", "gid")} for n in nodes]
 
 
 def rows_of(obs):
